@@ -3033,6 +3033,11 @@ class Engine:
             if name in bound:
                 bound[name] = coerce(bound[name], kind)
         site = self.site('call:' + fi.qualname)
+        # obligations the CALLER's contract attaches to calls of this callee (e.g. "the damping passed is the current one")
+        for cl in self.contract.call_demands.get(fi.qualname, []) if not self.spec_mode else []:
+            r = self.eval_spec(cl.node, st, self.init_state, extra_env={k_: v_ for k_, v_ in bound.items() if k_ != 'self'})
+            self.oblige(st, self.truth(r), f'demand:{site}:{cl.label}', kind='pre', text=f'{fi.qualname} must be called with: {cl.text}',
+                        props=cl.props)
         saved = (self._callee_env, getattr(self, 'let_nodes', {}))
         self._callee_env = bound
         self.let_nodes = {k: ast.parse(t, mode='eval').body for k, t in c.lets.items()}
